@@ -110,6 +110,52 @@ pub fn targets<F: Fl>(c: &Case, col: usize) -> Vec<F> {
         .collect()
 }
 
+/// Degenerate / non-square training shapes, decided by the LAST dial (read by position so that the adapters' own dial
+/// order is untouched): half of the cases keep all rows, the others keep 1, p-1, p or p+1 rows (p = feature count).
+/// Targets / label material are cut accordingly. A fit that rejects the shape simply yields no fitted instance.
+pub fn shape_variant(c: &Case, obs: &mut vengine::Obs) -> Case {
+    let p = ncols(c);
+    let n = c.x.len();
+    let dial = idx(c.knobs.last().copied().unwrap_or(0), 8);
+    let keep = match dial {
+        4 => 1,
+        5 if p >= 2 => p - 1,
+        6 => p,
+        7 => p + 1,
+        _ => n,
+    }
+    .min(n);
+    obs.class_if(keep == 1, "shape_single_sample");
+    obs.class_if(keep < p, "shape_fewer_samples_than_features");
+    obs.class_if(keep == p, "shape_samples_eq_features");
+    obs.class_if(keep == p + 1, "shape_samples_eq_features_plus_1");
+    obs.class_if(p == 1, "shape_single_feature");
+    let mut out = c.clone();
+    out.x.truncate(keep);
+    out.y.truncate(keep);
+    out
+}
+
+/// The same logical array in another memory layout: 0 = row-major, 1 = column-major (`(r, c).f()`), 2 = an owned
+/// transpose of the transpose (`a.t().to_owned().reversed_axes()`-style, also column-major but built through views).
+/// ndarray's serde always restores a row-major array, so a round trip changes the layout of 1 and 2.
+pub fn relayout<A: Clone>(a: &ndarray::Array2<A>, mode: usize) -> ndarray::Array2<A> {
+    use ndarray::ShapeBuilder;
+    let (r, c) = a.dim();
+    match mode {
+        1 => {
+            let v: Vec<A> = (0..c).flat_map(|j| (0..r).map(move |i| (i, j))).map(|(i, j)| a[(i, j)].clone()).collect();
+            ndarray::Array2::from_shape_vec((r, c).f(), v).unwrap_or_else(|_| a.clone())
+        }
+        2 => {
+            // row-major copy of the transpose, then swap the axes back: shape (r, c), strides (1, r)
+            let t: ndarray::Array2<A> = ndarray::Array2::from_shape_fn((c, r), |(j, i)| a[(i, j)].clone());
+            t.reversed_axes()
+        }
+        _ => a.clone(),
+    }
+}
+
 pub fn ncols(c: &Case) -> usize {
     c.x.first().map(|r| r.len()).unwrap_or(0)
 }
